@@ -32,7 +32,10 @@ META = dict(
                "text-file line iteration with newline='' (validated differentially, reader exhaustively on all texts "
                "up to length 4/5 over the special characters). Tag classes whose archive() is None only sometimes do "
                "not exist in the tree (Tag, MarkTag: never None; ArchiverTag: always None) — a UOD-defined subclass "
-               "could break the column count and is outside the model. 'Reads back exactly' is read as: the text that was "
+               "could break the column count and is outside the model. Runs on one archiver whose tag collection differs "
+               "from the previous run's (the archiver asks its tags_accessor at every start) are decided by the "
+               "property oracle on real files only: the archiver model and its theorems have one tag list per "
+               "history. 'Reads back exactly' is read as: the text that was "
                "written comes back unchanged; for a float tag the written text is, as Tag.archive documents it, the "
                "value in '%0.5f' (the model formats the exact binary value, correctly rounded, ties to even, and is "
                "compared on arbitrary doubles), so the oracle allows |read - value| <= 5e-6 for floats and demands "
@@ -373,6 +376,21 @@ class Rig:
             elif op[0] == "mark":
                 self.tags[op[1]].set_value(op[2], 1.0)
 
+    def retag(self, case):
+        """Between two runs: the collection the archiver's tags_accessor returns is a different one (other tags,
+        other order, the archiver itself a member at another position or not at all).  Same archiver instance."""
+        from openpectus.lang.exec.tags import Tag, TagCollection
+        from openpectus.lang.exec.tags_impl import MarkTag
+        self.coll = TagCollection()
+        self.tags = []
+        for kind, name, unit in case["tags"]:
+            t = MarkTag() if kind == "m" else self.archiver if kind == "s" else Tag(name, unit=unit)
+            self.tags.append(t)
+            self.coll.add(t, exist_ok=False)
+            if kind != "s":
+                self._wrap(t)
+        self.clock = 0
+
     def path(self):
         return self.archiver.file_path
 
@@ -641,6 +659,63 @@ def run(ctx: Check) -> int:
         shutil.rmtree(tmp, ignore_errors=True)
 
 
+def gen_retag_cases(ctx: Check):
+    """Several runs on ONE archiver, each with its own tag collection (the archiver asks its tags_accessor at every
+    start): the tags, their order, and where / whether the column-less archiver tag sits all change between runs."""
+    rng = ctx.rng
+    cases = []
+    for _ in range(ctx.n(60, 800)):
+        subs = []
+        for _ in range(rng.choice([2, 2, 3])):
+            tags = []
+            for i in range(rng.randrange(0, 6)):
+                nm = rng.choice(["T", "Flow,rate", 'Tag"q', "A\\B", "pH", "x;y", "Level [cm]"]) + str(i)
+                tags.append(["p", nm, rng.choice(UNITS)])
+            if rng.random() < 0.85:
+                tags.insert(rng.randrange(0, len(tags) + 1), ["m", MARK_NAME, None])
+            if rng.random() < 0.7:
+                tags.insert(rng.randrange(0, len(tags) + 1), ["s", ARCHIVER_NAME, None])
+            ops = _value_ops(rng, tags, rng.randrange(1, 4)) if rng.random() < 0.25 else []
+            ops.append(["start"])
+            for _ in range(rng.randrange(1, 6)):
+                ops += _value_ops(rng, tags, rng.randrange(0, 4))
+                ops.append(["row"])
+            ops.append(["stop"])
+            subs.append({"tags": tags, "ops": ops})
+        cases.append({"retag": subs})
+    return cases
+
+
+def oracle_retag(case, tmp) -> list[Failure]:
+    """The property per file, for runs whose tag collections differ: the k-th file has the header of the k-th run's
+    tags, every data row has that header's columns, and the values read back are the ones set on that run's tags."""
+    d = tempfile.mkdtemp(dir=tmp)
+    subs = case["retag"]
+    rig = Rig(subs[0], d)
+    for i, sub in enumerate(subs):
+        if i:
+            rig.retag(sub)
+        for op in sub["ops"]:
+            rig.op(op)
+    paths = rig.files()
+    fmt = dialect()
+    fails: list[Failure] = []
+    if len(paths) != len(subs):
+        fails.append(Failure("archive-file-count-differs", case,
+                             f"{len(paths)} archive files were left behind, {len(subs)} runs got an archive"))
+    for k, (p, sub) in enumerate(zip(paths, subs)):
+        with open(p, "r", newline="", encoding="utf-8") as f:
+            rows = list(csv.reader(f, **fmt))
+        header = expected_header(sub)
+        if not rows or rows[0] != header:
+            fails.append(Failure("archive-file-without-its-header", case,
+                                 f"file {k}: first row {rows[:1]!r}, the header of this run's tags is {header!r}"))
+            continue
+        expected, _ = expected_files(sub)
+        compare_rows(rows, expected[0], rows[0], FILE_KEYS, case, fails)
+    return fails
+
+
 def _run(ctx: Check, tmp: str) -> int:
     ctx.rule = ("writer: every row of <=2 fields of length <=2 over {, \\ \" CR LF a} (thorough: also <=3) plus random "
                 "rows of unicode/special fields; reader: EVERY text up to length 4 (thorough 5) over the same alphabet "
@@ -689,6 +764,9 @@ def _run(ctx: Check, tmp: str) -> int:
     # property oracle on the implementation, independent of the model
     ctx.monitor(rows, oracle_roundtrip)
     ctx.monitor(cases, lambda c: oracle_archive(c, tmp))
+    retag = gen_retag_cases(ctx)
+    ctx.monitor(retag, lambda c: oracle_retag(c, tmp))
+    ctx.count("archiver:runs-with-changed-collection", sum(len(c["retag"]) - 1 for c in retag))
     ctx.exhaustive = False
     ctx.extra["exhaustive_scopes"] = {"writer": "all rows of <=2 fields of length <=2 over 6 characters",
                                       "reader": f"all texts up to length {ctx.n(4, 5)} over 6 characters"}
@@ -698,6 +776,9 @@ def _run(ctx: Check, tmp: str) -> int:
         "create_run_stopped_msg ships); both must give the values that were set on the tags",
         "CPython csv writer/reader and text-file line splitting are modelled for this dialect and validated differentially",
         "tag classes are the ones in the tree: archive() is None for ArchiverTag only, and then always",
+        "runs whose tag collection differs from the previous run's (other tags, other order, the archiver tag a member "
+        "elsewhere or not at all; same ArchiverTag instance) are judged by the property oracle on the real files only: "
+        "the archiver model has one tag list per history, the theorems hold per tag list",
         "several runs per history (Stop = next file name); starts below the disk-space guard (os.statvfs and get_free_space_mb report "
         "2 MB) prepare no file: such a run has no archive and no rows, what was archived is judged per file left "
         "behind (each must start with the header of its tags); read_last_run_archive raising FileNotFoundError for a "
@@ -708,7 +789,8 @@ def _run(ctx: Check, tmp: str) -> int:
         "floats: arbitrary doubles incl. rounding ties (k/64), tiny values and -0.0; the archived text of a float is its "
         "'%0.5f' rendering (documented format of Tag.archive), hence tolerance 5e-6 in the oracle; nan/inf not generated",
     ]
-    return ctx.finish(search=lambda c: c.monitor(gen_archiver_cases(c), lambda x: oracle_archive(x, tmp)))
+    return ctx.finish(search=lambda c: (c.monitor(gen_archiver_cases(c), lambda x: oracle_archive(x, tmp)),
+                                        c.monitor(gen_retag_cases(c), lambda x: oracle_retag(x, tmp))))
 
 
 def load_corpus_cases(ctx):
@@ -724,6 +806,11 @@ def replay(obj) -> int:
             f = oracle_roundtrip(case["row"])
             print(f.detail if f else "round trip ok")
             return 1 if f else 0
+        if "retag" in case:
+            fails = oracle_retag(case, tmp)
+            for f in fails:
+                print("FAIL", f.key, f.detail)
+            return 1 if fails else 0
         if "tags" in case:
             out, paths, shipped = run_case(case, tmp)
             for p in paths:
